@@ -281,6 +281,38 @@ theorem ws_close_frame_wellformed (role : Role) (key rest : Bytes) (reason : Nat
              [u8 (reason / 2 ^ 8), u8 reason]⟩, rest) := by
   rw [decode_closeFrame role key rest reason hk]; cases role <;> rfl
 
+/-- coap_ws_write itself, from a writer with no frame part way and a lower layer that takes what it is offered: it
+returns `datalen`, what it hands down is exactly `frame` (so (a) is about the bytes WRITTEN), and it is idle again -/
+theorem ws_write_whole (st : St) (key data : Bytes) (lw : Nat → Int) (hk : key.length = 4) (hidle : Idle st)
+    (hall : lw (frame st.role key data).length = ((frame st.role key data).length : Int)) :
+    (wsWrite st key data lw).1 = (data.length : Int) ∧ (wsWrite st key data lw).2.2 = frame st.role key data ∧
+    Idle (wsWrite st key data lw).2.1 ∧ (wsWrite st key data lw).2.1.role = st.role := by
+  have hF := fLen_eq st.role key data
+  have hH := hLen_ge st.role key data
+  have hfl : (frame st.role key data).length = fLen st.role key data := rfl
+  rw [hfl] at hall
+  have hlw : lw (fLen st.role key data - 0) ≤ ((fLen st.role key data - 0 : Nat) : Int) := by
+    rw [Nat.sub_zero, hall]; exact Int.le_refl _
+  obtain ⟨hw, hrep, hrole, _, hret⟩ := wsWrite_step st key data 0 lw hk (Rep_zero st key data hidle) (by omega) hlw
+  simp only [Nat.zero_sub, List.drop_zero, Nat.sub_zero, Nat.zero_add, hall, Int.toNat_natCast] at hw hrep hret hrole
+  refine ⟨?_, ?_, ?_, hrole⟩
+  · rw [hret (Int.natCast_nonneg _)]; congr 1; omega
+  · rw [hw, ← hfl]; exact List.take_length
+  · rw [← hrole] at hrep; exact Idle_of_Rep_full _ key data hrep
+
+/-- coap_ws_close on a session that is up and has not sent a Close: the lower layer is handed exactly the Close frame
+with the status code (1000 when none was set), and from then on coap_ws_write writes nothing and returns 0 -/
+theorem ws_close_then_silent (st : St) (key : Bytes) (hup : st.up = true) (hsc : st.sentClose = false) :
+    (wsClose st key lwAll).2 = closeFrame st.role key (if st.closeReason = 0 then 1000 else st.closeReason) ∧
+    ∀ key' data lw, wsWrite (wsClose st key lwAll).1 key' data lw = (0, (wsClose st key lwAll).1, []) := by
+  constructor
+  · simp [wsClose, hup, hsc, lwAll]
+  · intro key' data lw
+    apply wsWrite_down
+    right
+    simp only [wsClose, hup, hsc, Bool.not_false, Bool.and_self, if_true]
+    cases st.role <;> rfl
+
 /-- several frames back to back parse as that sequence of frames under the RFC 6455 grammar -/
 theorem ws_frames_wellformed (role : Role) (msgs : List (Bytes × Bytes)) (hk : ∀ m ∈ msgs, m.1.length = 4)
     (hn : ∀ m ∈ msgs, m.2.length < 2 ^ 63) :
